@@ -18,6 +18,9 @@
 //	           iterate over the slice returned by GetChatHistory as a joining
 //	           client's loop does) and producers/consumer of an
 //	           unbounded.Channel, all at once on one group
+//	teardown   a recording client that records streams (fake conn.Up /
+//	pushchurn  conn.UpTrack, see streams.go) is torn down while streams are
+//	           pushed, replaced and removed; monitor C13.no_orphan_attachment
 //	snapshot   deterministic: the slice returned by GetChatHistory is a
 //	           snapshot; it must not change when the history is modified
 //	           afterwards
@@ -568,12 +571,28 @@ func runLifecycle(t *tr.Trace, r *tr.Rand, n int) {
 	if !snapOK {
 		return
 	}
+	// teardown of a recording client (or removal / replacement of one of
+	// its streams) interrupted at its first and second call-out by each kind
+	// of concurrent operation
+	for how := 0; how < 5; how++ {
+		for racer := 0; racer < 6; racer++ {
+			for at := 0; at < 2; at++ {
+				if !h.dead {
+					h.teardown(w, 2, how, racer, at)
+				}
+			}
+		}
+	}
 	h.shutdown(w, r, true, false, 1)
 	h.shutdown(w, r, false, true, 1)
 	h.shutdown(w, r, true, true, 2)
 	h.whipclose(w, r, 300, true)
 	for i := 0; i < n && !h.dead; i++ {
-		switch i % 5 {
+		switch i % 7 {
+		case 5:
+			h.teardown(w, r.Range(1, 4), r.Intn(5), r.Intn(6), r.Intn(6))
+		case 6:
+			h.pushchurn(w, r, r.Range(1, 3), r.Range(1, 3), r.Range(10, 40))
 		case 0:
 			h.shutdown(w, r, r.Bool(), r.Bool(), r.Range(0, 3))
 		case 1:
